@@ -315,6 +315,7 @@ type didVariant struct {
 	Bulk     int  // genesis-injected filler DIDs
 	Tombs    int  // every Tombs-th filler DID (in store order) is a tombstone
 	Prefix   bool // alphabet also has two DIDs one of which is a byte-prefix of the other
+	HugeSeq  bool // genesis: d2 already exists (document D1, key k1) at sequence 2^63-1, dp at 2^63+10
 	ID       string
 	Replays  bool // C04: Replay(i) ops
 	EmptyID  bool // C04/C05: create with an empty-id document
@@ -491,6 +492,7 @@ func didOps(e *didEnv, v didVariant) []explore.Op {
 		deact(d1, 1, 0, R1),
 		deact(d1, 2, 0, R2),
 		deact(d2, 1, 0, R1),
+		deact(d1, 1, -1, R2), // a deactivation signed for the previous sequence (withheld, then submitted late)
 	)
 	if !v.Small {
 		ops = append(ops,
@@ -645,6 +647,18 @@ func didSystem(v didVariant) *explore.System {
 		Fresh: func() (*world.World, any) {
 			opts := world.Options{Accounts: []*world.Account{env.R1, env.R2}}
 			m := newDidModel()
+			if v.HugeSeq {
+				fill := map[string]*didtypes.DIDDocumentWithSeq{
+					env.DIDs[1]:   {Document: env.doc("D1", env.DIDs[1]), Sequence: 1<<63 - 1},
+					env.Prefix[0]: {Document: env.doc("D1", env.Prefix[0]), Sequence: 1<<63 + 10},
+				}
+				opts.Mutate = func(gs map[string]json.RawMessage, cdc codec.Codec) {
+					gs["did"] = cdc.MustMarshalJSON(&didtypes.GenesisState{Documents: fill})
+				}
+				for did, d := range fill {
+					m.Entries[did] = &didEntry{Doc: d.Document, Seq: d.Sequence}
+				}
+			}
 			if v.Bulk > 0 {
 				fill := bulkDIDs(env, v.Bulk)
 				if v.Tombs > 0 {
@@ -876,13 +890,16 @@ func C04(t Tier) int {
 		bounds = []explore.Bounds{{Depth: 5, V: 1, Deadline: dl}, {Depth: 6, V: 1, Deadline: dl}, {Depth: 6, V: 2, Deadline: dl}, {Depth: 7, V: 2, Deadline: dl}}
 	}
 	RunGraph(run, sys, bounds, 6)
+	// second initial state: DIDs that already stand at sequences around 2^63 (genesis): the counter still grows by exactly one
+	huge := didSystem(didVariant{ID: "C04/huge-sequence", HugeSeq: true, Replays: true, Prefix: true, Small: true, Ctl: []string{"XI"}})
+	RunGraph(run, huge, []explore.Bounds{{Depth: 3, V: 1, Deadline: deadline(t, 45*time.Second, 4*time.Minute)}}, 4)
 	run.Assumptions = append(didAssumptions, "Replay(#i): the i-th accepted message of the path (multiset order) re-submitted with identical inner bytes by the other relayer; canonical state includes the multiset of accepted messages")
 	return run.Finish()
 }
 
 func C05(t Tier) int {
 	run := report.NewRun("C05", t.Name, "model_checking", "E1+E2")
-	sys := didSystem(didVariant{ID: "C05", EmptyID: true, Ctl: []string{"NB", "RS", "XI"}})
+	sys := didSystem(didVariant{ID: "C05", EmptyID: true, Ctl: []string{"NB", "RS", "XI", "UG"}})
 	dl := deadline(t, 120*time.Second, 15*time.Minute)
 	bounds := []explore.Bounds{{Depth: 3, V: 2, Deadline: dl}, {Depth: 4, V: 2, Deadline: dl}}
 	if t.Thorough {
